@@ -249,6 +249,8 @@ func runC17Sequence(c *fw.Ctx) {
 		all |= 1 << uint(i)
 	}
 	st := lcState{}
+	garbageAt := map[int]bool{}
+	doomed := false
 	var trace []string
 	sigBase := fmt.Sprintf("%s/%s", rec.sc.Proto, rec.sc.Kind)
 	if rec.sc.Kind == scen.KXor {
@@ -299,6 +301,9 @@ func runC17Sequence(c *fw.Ctx) {
 			return false
 		}
 		got := classify(v, e)
+		if doomed && st.phase == 0 && got == "error" {
+			st.phase = 2 // the queued undecodable message was judged on entering its round
+		}
 		want := [...]string{"notfinished", "value", "error"}[st.phase]
 		if got != want {
 			fail("result-"+want+"-expected-got-"+got, "%s: Result() is %q but the session must be %q", where, got, want)
@@ -310,6 +315,15 @@ func runC17Sequence(c *fw.Ctx) {
 			return false
 		}
 		return true
+	}
+	// delivery order of the genuine messages: in order, or (half of the cases) a drawn permutation -
+	// later-round messages then arrive early and are judged from the handler's queues on round entry
+	if c.S.Draw(2, "permute") == 1 {
+		for i := len(rec.inbound) - 1; i > 0; i-- {
+			j := c.S.Draw(i+1, "perm")
+			rec.inbound[i], rec.inbound[j] = rec.inbound[j], rec.inbound[i]
+		}
+		c.Fault("permuted_delivery_order", 1)
 	}
 	// the interposed sequence
 	nGenuine := len(rec.inbound)
@@ -332,7 +346,37 @@ func runC17Sequence(c *fw.Ctx) {
 		next++
 	}
 	for k := 0; k < ops; k++ {
-		switch c.S.Draw(7, "op") {
+		switch c.S.Draw(8, "op") {
+		case 7:
+			// a peer's message that cannot be decoded (delivered in place of the next genuine one, possibly
+			// early): the session must end with an error, once
+			if next >= nGenuine {
+				continue
+			}
+			trace = append(trace, fmt.Sprintf("Accept(garbage in place of m%d)", next))
+			m := *rec.inbound[next]
+			m.Data = []byte{0xff, 0x00, 0x13, 0x37}
+			if call("Accept", func() { h.Accept(&m) }) {
+				return
+			}
+			c.Fault("undecodable_message", 1)
+			// it ends the session when it is judged: at once if it belongs to the current round, else on
+			// entering its round; the model follows the handler's own verdict here and only demands
+			// consistency afterwards (never value AND error, channel closed iff ended, no panic)
+			var v interface{}
+			var e error
+			if call("Result", func() { v, e = h.Result() }) {
+				return
+			}
+			switch classify(v, e) {
+			case "error":
+				st.phase = 2
+			case "value":
+				st.phase = 1
+			}
+			garbageAt[next] = true
+			doomed = true
+			next++
 		case 0:
 			trace = append(trace, "Stop")
 			if call("Stop", func() { h.Stop() }) {
